@@ -168,6 +168,11 @@ func timerFire(s *Sim, tm *simTimer) bool {
 	}
 	tm.fired = true
 	s.timersFired++
+	if tm.f != nil && tm.task != nil {
+		// from here on the task runs the program's callback: if that blocks for ever it is a task left
+		// behind like any other
+		tm.task.timer = false
+	}
 	return true
 }
 
